@@ -243,6 +243,12 @@ func ReadFromSSAWithOptions(i io.Reader, opts SSAOptions) (o *Subtitles, err err
 		}
 	}
 
+	// The scan stops silently on a read error or on a line that doesn't fit the scanner's buffer
+	if err = scanner.Err(); err != nil {
+		err = fmt.Errorf("astisub: scanning failed: %w", err)
+		return
+	}
+
 	// Set metadata
 	o.Metadata = si.metadata()
 
